@@ -212,6 +212,36 @@ func runC18(c *Ctx) {
 	} else {
 		c.Unk("C18.H3-make-read-pairs", "ingest/model.(*IngestRequest).UnmarshalRecord", token.NoPos, "not found")
 	}
+	// the ingest constructor seals what it was given: every field of the request it builds (bar the sequence number) is
+	// one of its parameters as handed in (a copy is fine; a rewriting helper is not)
+	if mk := c.Func(modelPkg, "MakeIngestRequest"); mk != nil {
+		nLit := 0
+		instrs(mk.SSA, func(in ssa.Instruction) {
+			al, ok := in.(*ssa.Alloc)
+			if !ok || !strings.HasSuffix(deref(al.Type()).String(), ".IngestRequest") {
+				return
+			}
+			nLit++
+			for name, v := range c.CellFields(c.E(al)) {
+				if name == "Seq" {
+					continue
+				}
+				ok := false
+				t := strip(v)
+				switch {
+				case t != nil && t.Op == "param":
+					ok = true
+				case t != nil && t.Op == "call" && len(t.Args) == 1 && strip(t.Args[0]).Op == "param" &&
+					(strings.Contains(t.Name, "slices.Clone") || strings.Contains(t.Name, "slices.Clip") || strings.Contains(t.Name, "bytes.Clone")):
+					ok = true
+				}
+				c.Check(ok, "C18.H3-make-read-pairs", mk.Name+" › "+name+" as given", al.Pos(), "the request's "+name+" is the constructor's argument", "the request's "+name+" is not the constructor's argument as handed in ("+abbreviate(v.String())+"): what the provider signs, and what the reader returns, differs from what the caller asked to be sent")
+			}
+		})
+		if nLit == 0 {
+			c.Unk("C18.H3-make-read-pairs", mk.Name+" › request literal", mk.SSA.Pos(), "no IngestRequest built in the constructor")
+		}
+	}
 	c.Floor("C18.H3-make-read-pairs", 5)
 }
 
